@@ -31,6 +31,7 @@ package doif
 
 //@ func NewLogicalNode
 //@   option check-nil no
+//@   pure
 //@   ensures result1 == nil ==> len(operands) >= 1
 //@   ensures result1 == nil ==> result0.operands == operands
 //@   ensures result1 == nil ==> (op == "or" ==> result0.op == logicalOr) && (op == "and" ==> result0.op == logicalAnd) && (op == "not" ==> result0.op == logicalNot && len(operands) == 1)
@@ -68,11 +69,14 @@ package doif
 
 //@ func NewFieldOpNode
 //@   option allow-exit yes
+//@   pure
 //@   ensures result1 == nil && as(result0, "fieldOpNode").op != fieldRegexOp ==> (forall k :: 0 <= k && k < len(values) ==> as(result0, "fieldOpNode").minValLen <= len(values[k]) && len(values[k]) <= as(result0, "fieldOpNode").maxValLen)
 //@   loop 2 invariant rangeindex#2 < len(values) && fop != fieldRegexOp && (forall k :: 0 <= k && k <= rangeindex#2 ==> minValLen <= len(values[k]) && len(values[k]) <= maxValLen)
 //@   loop 2 invariant minValLen <= len(values[0]) && len(values[0]) <= maxValLen
 //@   callee maplookup:valsBySize(k) (v, ok)
 //@     ensures isnil(v) || !sameblock(v, values)
+//@     ensures isnil(v) || freshin(v)
+//@   loop 1 invariant freshin(reValues)
 //@   callee ParseFieldSelector(s)
 //@     pure
 //@   callee Compile(s) (r, e)
@@ -222,8 +226,832 @@ package doif
 // are two regexps).
 
 //@ func extractOpValuesFromArr
+//@   pure
 //@   ensures result1 == nil ==> len(result0) == len(values)
 //@   loop 1 invariant len(vals) == rangeindex + 1 && rangeindex < len(values)
+//@   loop 1 invariant isnil(vals) || freshin(vals)
 //@   callee Errorf(f, a) (e)
 //@     pure
 //@     ensures e != nil
+
+// checkTypeOpNode.Check (C14): the node looked at is the one at the configured path of
+// the event; the result is "some configured type test accepts that node", whatever the
+// order of the tests and wherever the search stops.  The i-th type test of node n on
+// JSON node x is the uninterpreted up_tfn(n, i, x).  Data that is not an event never
+// matches.
+
+//@ func (*checkTypeOpNode).Check
+//@   ghost w int = 0
+//@   ghost gn int = 0
+//@   ghost ndig int = 0
+//@   pure
+//@   ensures !typeis(data, "github.com/ozontech/file.d/pipeline/doif.eventData") ==> !result
+//@   ensures result ==> ndig == 1 && 0 <= w && w < len(n.checkTypeFns) && up_tfn(n, w, gn)
+//@   ensures !result && typeis(data, "github.com/ozontech/file.d/pipeline/doif.eventData") ==> ndig == 1 && (forall i :: 0 <= i && i < len(n.checkTypeFns) ==> !up_tfn(n, i, gn))
+//@   loop 1 invariant rangeindex < len(n.checkTypeFns) && ndig == 1 && (forall k :: 0 <= k && k <= rangeindex ==> !up_tfn(n, k, gn))
+//@   callee Dig(path) (nd)
+//@     requires path == n.fieldPath && ndig == 0
+//@     pure
+//@     set gn := ref(nd)
+//@     set ndig := ndig + 1
+//@   callee checkFn(x) (r)
+//@     requires ndig == 1 && ref(x) == gn
+//@     pure
+//@     ensures r == up_tfn(n, rangeindex, ref(x))
+//@     set w := rangeindex
+
+// NewCheckTypeOpNode (C14, "check_type matches exactly the documented JSON types").
+// Accepted are exactly the documented names - object/obj, array/arr, number/num,
+// string/str, null, nil - written out below byte by byte (the solvers are four times
+// faster on that than on seqeq); an empty list or any other name is refused, and a
+// list of documented names is never refused.  hT says "type T is registered", wT is a
+// witness position: T is registered iff some value names it, and there is exactly one
+// type test per registered type (aliases and repetitions are deduplicated), so
+// len(checkTypeFns) is the number of distinct configured types.  Go maps are not
+// modelled: usedTypesMap is modelled by the hT ghosts (`ensures ok == ...` at the
+// lookup is that model, listed as an assumption); every update must be for the key
+// just looked up and found absent.  Field path: the given text and its parse.
+// What is NOT stated (function values cannot be named in a contract): that the test
+// appended in the case of type T is T's test; the six closures have their own
+// contracts below, by position in the source.
+
+//@ func NewCheckTypeOpNode
+//@   pure
+//@   ghost hObj bool = false
+//@   ghost hArr bool = false
+//@   ghost hNumber bool = false
+//@   ghost hString bool = false
+//@   ghost hNull bool = false
+//@   ghost hNil bool = false
+//@   ghost wObj int = 0
+//@   ghost wArr int = 0
+//@   ghost wNumber int = 0
+//@   ghost wString int = 0
+//@   ghost wNull int = 0
+//@   ghost wNil int = 0
+//@   ghost nreg int = 0
+//@   ghost glk int = 0
+//@   ghost gpr int = 0
+//@   ghost gpl int = 0
+//@   ghost glok bool = false
+//@   ensures result1 == nil ==> len(values) >= 1
+//@   ensures result1 == nil ==> (forall j :: 0 <= j && j < len(values) ==> (len(values[j]) == 3 && values[j][0] == 'o' && values[j][1] == 'b' && values[j][2] == 'j' || len(values[j]) == 6 && values[j][0] == 'o' && values[j][1] == 'b' && values[j][2] == 'j' && values[j][3] == 'e' && values[j][4] == 'c' && values[j][5] == 't' || len(values[j]) == 3 && values[j][0] == 'a' && values[j][1] == 'r' && values[j][2] == 'r' || len(values[j]) == 5 && values[j][0] == 'a' && values[j][1] == 'r' && values[j][2] == 'r' && values[j][3] == 'a' && values[j][4] == 'y' || len(values[j]) == 3 && values[j][0] == 'n' && values[j][1] == 'u' && values[j][2] == 'm' || len(values[j]) == 6 && values[j][0] == 'n' && values[j][1] == 'u' && values[j][2] == 'm' && values[j][3] == 'b' && values[j][4] == 'e' && values[j][5] == 'r' || len(values[j]) == 3 && values[j][0] == 's' && values[j][1] == 't' && values[j][2] == 'r' || len(values[j]) == 6 && values[j][0] == 's' && values[j][1] == 't' && values[j][2] == 'r' && values[j][3] == 'i' && values[j][4] == 'n' && values[j][5] == 'g' || len(values[j]) == 4 && values[j][0] == 'n' && values[j][1] == 'u' && values[j][2] == 'l' && values[j][3] == 'l' || len(values[j]) == 3 && values[j][0] == 'n' && values[j][1] == 'i' && values[j][2] == 'l'))
+//@   ensures len(values) >= 1 && (forall j :: 0 <= j && j < len(values) ==> (len(values[j]) == 3 && values[j][0] == 'o' && values[j][1] == 'b' && values[j][2] == 'j' || len(values[j]) == 6 && values[j][0] == 'o' && values[j][1] == 'b' && values[j][2] == 'j' && values[j][3] == 'e' && values[j][4] == 'c' && values[j][5] == 't' || len(values[j]) == 3 && values[j][0] == 'a' && values[j][1] == 'r' && values[j][2] == 'r' || len(values[j]) == 5 && values[j][0] == 'a' && values[j][1] == 'r' && values[j][2] == 'r' && values[j][3] == 'a' && values[j][4] == 'y' || len(values[j]) == 3 && values[j][0] == 'n' && values[j][1] == 'u' && values[j][2] == 'm' || len(values[j]) == 6 && values[j][0] == 'n' && values[j][1] == 'u' && values[j][2] == 'm' && values[j][3] == 'b' && values[j][4] == 'e' && values[j][5] == 'r' || len(values[j]) == 3 && values[j][0] == 's' && values[j][1] == 't' && values[j][2] == 'r' || len(values[j]) == 6 && values[j][0] == 's' && values[j][1] == 't' && values[j][2] == 'r' && values[j][3] == 'i' && values[j][4] == 'n' && values[j][5] == 'g' || len(values[j]) == 4 && values[j][0] == 'n' && values[j][1] == 'u' && values[j][2] == 'l' && values[j][3] == 'l' || len(values[j]) == 3 && values[j][0] == 'n' && values[j][1] == 'i' && values[j][2] == 'l')) ==> result1 == nil
+//@   ensures result1 == nil && hObj ==> 0 <= wObj && wObj < len(values) && (len(values[wObj]) == 3 && values[wObj][0] == 'o' && values[wObj][1] == 'b' && values[wObj][2] == 'j' || len(values[wObj]) == 6 && values[wObj][0] == 'o' && values[wObj][1] == 'b' && values[wObj][2] == 'j' && values[wObj][3] == 'e' && values[wObj][4] == 'c' && values[wObj][5] == 't')
+//@   ensures result1 == nil && !hObj ==> (forall j :: 0 <= j && j < len(values) ==> !(len(values[j]) == 3 && values[j][0] == 'o' && values[j][1] == 'b' && values[j][2] == 'j' || len(values[j]) == 6 && values[j][0] == 'o' && values[j][1] == 'b' && values[j][2] == 'j' && values[j][3] == 'e' && values[j][4] == 'c' && values[j][5] == 't'))
+//@   ensures result1 == nil && hArr ==> 0 <= wArr && wArr < len(values) && (len(values[wArr]) == 3 && values[wArr][0] == 'a' && values[wArr][1] == 'r' && values[wArr][2] == 'r' || len(values[wArr]) == 5 && values[wArr][0] == 'a' && values[wArr][1] == 'r' && values[wArr][2] == 'r' && values[wArr][3] == 'a' && values[wArr][4] == 'y')
+//@   ensures result1 == nil && !hArr ==> (forall j :: 0 <= j && j < len(values) ==> !(len(values[j]) == 3 && values[j][0] == 'a' && values[j][1] == 'r' && values[j][2] == 'r' || len(values[j]) == 5 && values[j][0] == 'a' && values[j][1] == 'r' && values[j][2] == 'r' && values[j][3] == 'a' && values[j][4] == 'y'))
+//@   ensures result1 == nil && hNumber ==> 0 <= wNumber && wNumber < len(values) && (len(values[wNumber]) == 3 && values[wNumber][0] == 'n' && values[wNumber][1] == 'u' && values[wNumber][2] == 'm' || len(values[wNumber]) == 6 && values[wNumber][0] == 'n' && values[wNumber][1] == 'u' && values[wNumber][2] == 'm' && values[wNumber][3] == 'b' && values[wNumber][4] == 'e' && values[wNumber][5] == 'r')
+//@   ensures result1 == nil && !hNumber ==> (forall j :: 0 <= j && j < len(values) ==> !(len(values[j]) == 3 && values[j][0] == 'n' && values[j][1] == 'u' && values[j][2] == 'm' || len(values[j]) == 6 && values[j][0] == 'n' && values[j][1] == 'u' && values[j][2] == 'm' && values[j][3] == 'b' && values[j][4] == 'e' && values[j][5] == 'r'))
+//@   ensures result1 == nil && hString ==> 0 <= wString && wString < len(values) && (len(values[wString]) == 3 && values[wString][0] == 's' && values[wString][1] == 't' && values[wString][2] == 'r' || len(values[wString]) == 6 && values[wString][0] == 's' && values[wString][1] == 't' && values[wString][2] == 'r' && values[wString][3] == 'i' && values[wString][4] == 'n' && values[wString][5] == 'g')
+//@   ensures result1 == nil && !hString ==> (forall j :: 0 <= j && j < len(values) ==> !(len(values[j]) == 3 && values[j][0] == 's' && values[j][1] == 't' && values[j][2] == 'r' || len(values[j]) == 6 && values[j][0] == 's' && values[j][1] == 't' && values[j][2] == 'r' && values[j][3] == 'i' && values[j][4] == 'n' && values[j][5] == 'g'))
+//@   ensures result1 == nil && hNull ==> 0 <= wNull && wNull < len(values) && (len(values[wNull]) == 4 && values[wNull][0] == 'n' && values[wNull][1] == 'u' && values[wNull][2] == 'l' && values[wNull][3] == 'l')
+//@   ensures result1 == nil && !hNull ==> (forall j :: 0 <= j && j < len(values) ==> !(len(values[j]) == 4 && values[j][0] == 'n' && values[j][1] == 'u' && values[j][2] == 'l' && values[j][3] == 'l'))
+//@   ensures result1 == nil && hNil ==> 0 <= wNil && wNil < len(values) && (len(values[wNil]) == 3 && values[wNil][0] == 'n' && values[wNil][1] == 'i' && values[wNil][2] == 'l')
+//@   ensures result1 == nil && !hNil ==> (forall j :: 0 <= j && j < len(values) ==> !(len(values[j]) == 3 && values[j][0] == 'n' && values[j][1] == 'i' && values[j][2] == 'l'))
+//@   ensures result1 == nil ==> len(as(result0, "checkTypeOpNode").checkTypeFns) == ite(hObj, 1, 0) + ite(hArr, 1, 0) + ite(hNumber, 1, 0) + ite(hString, 1, 0) + ite(hNull, 1, 0) + ite(hNil, 1, 0)
+//@   ensures result1 == nil ==> as(result0, "checkTypeOpNode").fieldPathStr == field && ref(as(result0, "checkTypeOpNode").fieldPath) == gpr && len(as(result0, "checkTypeOpNode").fieldPath) == gpl
+//@   loop 1 invariant freshin(checkTypeFns)
+//@   loop 1 invariant rangeindex < len(values) && nreg == len(checkTypeFns) && nreg == ite(hObj, 1, 0) + ite(hArr, 1, 0) + ite(hNumber, 1, 0) + ite(hString, 1, 0) + ite(hNull, 1, 0) + ite(hNil, 1, 0)
+//@   loop 1 invariant forall j :: 0 <= j && j <= rangeindex ==> (len(values[j]) == 3 && values[j][0] == 'o' && values[j][1] == 'b' && values[j][2] == 'j' || len(values[j]) == 6 && values[j][0] == 'o' && values[j][1] == 'b' && values[j][2] == 'j' && values[j][3] == 'e' && values[j][4] == 'c' && values[j][5] == 't' || len(values[j]) == 3 && values[j][0] == 'a' && values[j][1] == 'r' && values[j][2] == 'r' || len(values[j]) == 5 && values[j][0] == 'a' && values[j][1] == 'r' && values[j][2] == 'r' && values[j][3] == 'a' && values[j][4] == 'y' || len(values[j]) == 3 && values[j][0] == 'n' && values[j][1] == 'u' && values[j][2] == 'm' || len(values[j]) == 6 && values[j][0] == 'n' && values[j][1] == 'u' && values[j][2] == 'm' && values[j][3] == 'b' && values[j][4] == 'e' && values[j][5] == 'r' || len(values[j]) == 3 && values[j][0] == 's' && values[j][1] == 't' && values[j][2] == 'r' || len(values[j]) == 6 && values[j][0] == 's' && values[j][1] == 't' && values[j][2] == 'r' && values[j][3] == 'i' && values[j][4] == 'n' && values[j][5] == 'g' || len(values[j]) == 4 && values[j][0] == 'n' && values[j][1] == 'u' && values[j][2] == 'l' && values[j][3] == 'l' || len(values[j]) == 3 && values[j][0] == 'n' && values[j][1] == 'i' && values[j][2] == 'l')
+//@   loop 1 invariant hObj ==> 0 <= wObj && wObj <= rangeindex && (len(values[wObj]) == 3 && values[wObj][0] == 'o' && values[wObj][1] == 'b' && values[wObj][2] == 'j' || len(values[wObj]) == 6 && values[wObj][0] == 'o' && values[wObj][1] == 'b' && values[wObj][2] == 'j' && values[wObj][3] == 'e' && values[wObj][4] == 'c' && values[wObj][5] == 't')
+//@   loop 1 invariant !hObj ==> (forall j :: 0 <= j && j <= rangeindex ==> !(len(values[j]) == 3 && values[j][0] == 'o' && values[j][1] == 'b' && values[j][2] == 'j' || len(values[j]) == 6 && values[j][0] == 'o' && values[j][1] == 'b' && values[j][2] == 'j' && values[j][3] == 'e' && values[j][4] == 'c' && values[j][5] == 't'))
+//@   loop 1 invariant hArr ==> 0 <= wArr && wArr <= rangeindex && (len(values[wArr]) == 3 && values[wArr][0] == 'a' && values[wArr][1] == 'r' && values[wArr][2] == 'r' || len(values[wArr]) == 5 && values[wArr][0] == 'a' && values[wArr][1] == 'r' && values[wArr][2] == 'r' && values[wArr][3] == 'a' && values[wArr][4] == 'y')
+//@   loop 1 invariant !hArr ==> (forall j :: 0 <= j && j <= rangeindex ==> !(len(values[j]) == 3 && values[j][0] == 'a' && values[j][1] == 'r' && values[j][2] == 'r' || len(values[j]) == 5 && values[j][0] == 'a' && values[j][1] == 'r' && values[j][2] == 'r' && values[j][3] == 'a' && values[j][4] == 'y'))
+//@   loop 1 invariant hNumber ==> 0 <= wNumber && wNumber <= rangeindex && (len(values[wNumber]) == 3 && values[wNumber][0] == 'n' && values[wNumber][1] == 'u' && values[wNumber][2] == 'm' || len(values[wNumber]) == 6 && values[wNumber][0] == 'n' && values[wNumber][1] == 'u' && values[wNumber][2] == 'm' && values[wNumber][3] == 'b' && values[wNumber][4] == 'e' && values[wNumber][5] == 'r')
+//@   loop 1 invariant !hNumber ==> (forall j :: 0 <= j && j <= rangeindex ==> !(len(values[j]) == 3 && values[j][0] == 'n' && values[j][1] == 'u' && values[j][2] == 'm' || len(values[j]) == 6 && values[j][0] == 'n' && values[j][1] == 'u' && values[j][2] == 'm' && values[j][3] == 'b' && values[j][4] == 'e' && values[j][5] == 'r'))
+//@   loop 1 invariant hString ==> 0 <= wString && wString <= rangeindex && (len(values[wString]) == 3 && values[wString][0] == 's' && values[wString][1] == 't' && values[wString][2] == 'r' || len(values[wString]) == 6 && values[wString][0] == 's' && values[wString][1] == 't' && values[wString][2] == 'r' && values[wString][3] == 'i' && values[wString][4] == 'n' && values[wString][5] == 'g')
+//@   loop 1 invariant !hString ==> (forall j :: 0 <= j && j <= rangeindex ==> !(len(values[j]) == 3 && values[j][0] == 's' && values[j][1] == 't' && values[j][2] == 'r' || len(values[j]) == 6 && values[j][0] == 's' && values[j][1] == 't' && values[j][2] == 'r' && values[j][3] == 'i' && values[j][4] == 'n' && values[j][5] == 'g'))
+//@   loop 1 invariant hNull ==> 0 <= wNull && wNull <= rangeindex && (len(values[wNull]) == 4 && values[wNull][0] == 'n' && values[wNull][1] == 'u' && values[wNull][2] == 'l' && values[wNull][3] == 'l')
+//@   loop 1 invariant !hNull ==> (forall j :: 0 <= j && j <= rangeindex ==> !(len(values[j]) == 4 && values[j][0] == 'n' && values[j][1] == 'u' && values[j][2] == 'l' && values[j][3] == 'l'))
+//@   loop 1 invariant hNil ==> 0 <= wNil && wNil <= rangeindex && (len(values[wNil]) == 3 && values[wNil][0] == 'n' && values[wNil][1] == 'i' && values[wNil][2] == 'l')
+//@   loop 1 invariant !hNil ==> (forall j :: 0 <= j && j <= rangeindex ==> !(len(values[j]) == 3 && values[j][0] == 'n' && values[j][1] == 'i' && values[j][2] == 'l'))
+//@   callee maplookup:usedTypesMap(k) (v, ok)
+//@     ensures ok == (k == checkTypeObj && hObj || k == checkTypeArr && hArr || k == checkTypeNumber && hNumber || k == checkTypeString && hString || k == checkTypeNull && hNull || k == checkTypeNil && hNil)
+//@     set hObj := hObj || k == checkTypeObj
+//@     set wObj := ite(k == checkTypeObj && !hObj, rangeindex, wObj)
+//@     set hArr := hArr || k == checkTypeArr
+//@     set wArr := ite(k == checkTypeArr && !hArr, rangeindex, wArr)
+//@     set hNumber := hNumber || k == checkTypeNumber
+//@     set wNumber := ite(k == checkTypeNumber && !hNumber, rangeindex, wNumber)
+//@     set hString := hString || k == checkTypeString
+//@     set wString := ite(k == checkTypeString && !hString, rangeindex, wString)
+//@     set hNull := hNull || k == checkTypeNull
+//@     set wNull := ite(k == checkTypeNull && !hNull, rangeindex, wNull)
+//@     set hNil := hNil || k == checkTypeNil
+//@     set wNil := ite(k == checkTypeNil && !hNil, rangeindex, wNil)
+//@     set nreg := nreg + ite(ok, 0, 1)
+//@     set glk := k
+//@     set glok := ok
+//@   callee mapupdate:usedTypesMap(k, v)
+//@     requires k == glk && !glok
+//@   callee ParseFieldSelector(s) (r)
+//@     requires s == field
+//@     pure
+//@     set gpr := ref(r)
+//@     set gpl := len(r)
+
+// The six type tests, in source order: object, array, number, string, null, nil (absent field).
+// Each returns exactly what the insane-json predicate of that name says about the node it is given.
+
+//@ func NewCheckTypeOpNode$1
+//@   pure
+//@   ghost gr bool = false
+//@   ghost nc int = 0
+//@   ensures nc == 1 && result == gr
+//@   callee IsObject() (r)
+//@     requires recv == n
+//@     pure
+//@     set gr := r
+//@     set nc := nc + 1
+
+//@ func NewCheckTypeOpNode$2
+//@   pure
+//@   ghost gr bool = false
+//@   ghost nc int = 0
+//@   ensures nc == 1 && result == gr
+//@   callee IsArray() (r)
+//@     requires recv == n
+//@     pure
+//@     set gr := r
+//@     set nc := nc + 1
+
+//@ func NewCheckTypeOpNode$3
+//@   pure
+//@   ghost gr bool = false
+//@   ghost nc int = 0
+//@   ensures nc == 1 && result == gr
+//@   callee IsNumber() (r)
+//@     requires recv == n
+//@     pure
+//@     set gr := r
+//@     set nc := nc + 1
+
+//@ func NewCheckTypeOpNode$4
+//@   pure
+//@   ghost gr bool = false
+//@   ghost nc int = 0
+//@   ensures nc == 1 && result == gr
+//@   callee IsString() (r)
+//@     requires recv == n
+//@     pure
+//@     set gr := r
+//@     set nc := nc + 1
+
+//@ func NewCheckTypeOpNode$5
+//@   pure
+//@   ghost gr bool = false
+//@   ghost nc int = 0
+//@   ensures nc == 1 && result == gr
+//@   callee IsNull() (r)
+//@     requires recv == n
+//@     pure
+//@     set gr := r
+//@     set nc := nc + 1
+
+//@ func NewCheckTypeOpNode$6
+//@   pure
+//@   ghost gr bool = false
+//@   ghost nc int = 0
+//@   ensures nc == 1 && result == gr
+//@   callee IsNil() (r)
+//@     requires recv == n
+//@     pure
+//@     set gr := r
+//@     set nc := nc + 1
+
+// eventData.Get (C14): what every field operation sees of the event.  Without a
+// root there is nothing; the node looked at is the one at exactly the given path;
+// an array or object is a one-byte placeholder (never equal to a configured text
+// by accident of its encoding), null is "no data", anything else is the node's own
+// bytes, unchanged.  Nothing of the event is written.
+
+//@ func (eventData).Get
+//@   option check-nil yes
+//@   pure
+//@   ghost gn int = 0
+//@   ghost ndig int = 0
+//@   ghost isarr bool = false
+//@   ghost isobj bool = false
+//@   ghost isnull bool = false
+//@   ghost nobj int = 0
+//@   ghost nnull int = 0
+//@   ghost nbytes int = 0
+//@   ghost gbref int = 0
+//@   ghost gboff int = 0
+//@   ghost gblen int = 0
+//@   ensures d.root == nil ==> isnil(result) && ndig == 0
+//@   ensures d.root != nil ==> ndig == 1
+//@   ensures d.root != nil && !isarr ==> nobj == 1
+//@   ensures d.root != nil && !isarr && !isobj ==> nnull == 1
+//@   ensures d.root != nil && (isarr || isobj) ==> len(result) == 1 && freshin(result)
+//@   ensures d.root != nil && !isarr && !isobj && isnull ==> isnil(result)
+//@   ensures d.root != nil && !isarr && !isobj && !isnull ==> nbytes == 1 && ref(result) == gbref && off(result) == gboff && len(result) == gblen
+//@   callee Dig(p) (nd)
+//@     requires p == path && ndig == 0 && recv == d.root.Node
+//@     pure
+//@     set gn := ref(nd)
+//@     set ndig := ndig + 1
+//@   callee IsArray() (r)
+//@     requires ref(recv) == gn && ndig == 1
+//@     pure
+//@     set isarr := r
+//@   callee IsObject() (r)
+//@     requires ref(recv) == gn && ndig == 1
+//@     pure
+//@     set isobj := r
+//@     set nobj := nobj + 1
+//@   callee IsNull() (r)
+//@     requires ref(recv) == gn && ndig == 1
+//@     pure
+//@     set isnull := r
+//@     set nnull := nnull + 1
+//@   callee AsBytes() (b)
+//@     requires ref(recv) == gn && ndig == 1
+//@     pure
+//@     set nbytes := nbytes + 1
+//@     set gbref := ref(b)
+//@     set gboff := off(b)
+//@     set gblen := len(b)
+
+// newCmpOp: the six documented comparison names, and nothing else, are accepted; the
+// accepted operation is the one that was named.
+
+//@ func newCmpOp
+//@   pure
+//@   ensures result1 == nil ==> result0 == cmpOp
+//@   ensures result1 == nil <==> (cmpOp == "lt" || cmpOp == "le" || cmpOp == "gt" || cmpOp == "ge" || cmpOp == "eq" || cmpOp == "ne")
+
+// NewLenCmpOpNode (C14, tree construction): the node compares what the op name says
+// (byte length / array length / integer value), with the named comparison, against the
+// configured non-negative value, at the configured path.  Unknown op names, unknown
+// comparison names and negative values are refused - and nothing else is.
+
+//@ func NewLenCmpOpNode
+//@   pure
+//@   ghost gpr int = 0
+//@   ghost gpl int = 0
+//@   ghost npath int = 0
+//@   ensures result1 == nil ==> typeis(result0, "*github.com/ozontech/file.d/pipeline/doif.lenCmpOpNode")
+//@   ensures result1 == nil ==> (op == "byte_len_cmp" && as(result0, "lenCmpOpNode").lenCmpOp == byteLenCmpOp) || (op == "array_len_cmp" && as(result0, "lenCmpOpNode").lenCmpOp == arrayLenCmpOp) || (op == "int_val_cmp" && as(result0, "lenCmpOpNode").lenCmpOp == intValCmpOp)
+//@   ensures result1 == nil ==> cmpValue >= 0 && as(result0, "lenCmpOpNode").cmpValue == cmpValue
+//@   ensures result1 == nil ==> as(result0, "lenCmpOpNode").cmpOp == cmpOp && (cmpOp == "lt" || cmpOp == "le" || cmpOp == "gt" || cmpOp == "ge" || cmpOp == "eq" || cmpOp == "ne")
+//@   ensures result1 == nil ==> npath == 1 && ref(as(result0, "lenCmpOpNode").fieldPath) == gpr && len(as(result0, "lenCmpOpNode").fieldPath) == gpl
+//@   ensures (op == "byte_len_cmp" || op == "array_len_cmp" || op == "int_val_cmp") && cmpValue >= 0 && (cmpOp == "lt" || cmpOp == "le" || cmpOp == "gt" || cmpOp == "ge" || cmpOp == "eq" || cmpOp == "ne") ==> result1 == nil
+//@   callee ParseFieldSelector(s) (r)
+//@     requires s == field
+//@     pure
+//@     set gpr := ref(r)
+//@     set gpl := len(r)
+//@     set npath := npath + 1
+
+// startUpdater writes nothing of the node but its moving "now" value.
+
+//@ func (*tsCmpOpNode).startUpdater
+//@   modifies n.varCmpValue
+//@   callee Store(v)
+//@     modifies n.varCmpValue
+//@   callee Now() (t)
+//@     pure
+//@   callee UnixNano() (v)
+//@     pure
+
+// NewTsCmpOpNode (C14, tree construction): the node carries the named comparison, the
+// named mode ("now" / "const", nothing else), the configured instant as nanoseconds,
+// the shift and the update interval as given, the path of the configured field, and
+// the time layout: the layout a known format name stands for, otherwise the text itself.
+// An unknown comparison name or mode is refused, and nothing else is.  The updater is
+// started once, on the finished node, and touches nothing but the moving value.
+
+//@ func NewTsCmpOpNode
+//@   pure
+//@   ghost gpr int = 0
+//@   ghost gpl int = 0
+//@   ghost npath int = 0
+//@   ghost gunix int = 0
+//@   ghost gshift int = 0
+//@   ghost gfmt seq = ""
+//@   ghost gfmtok bool = false
+//@   ghost nstart int = 0
+//@   ensures result1 == nil ==> typeis(result0, "*github.com/ozontech/file.d/pipeline/doif.tsCmpOpNode")
+//@   ensures result1 == nil ==> as(result0, "tsCmpOpNode").cmpOp == cmpOp && (cmpOp == "lt" || cmpOp == "le" || cmpOp == "gt" || cmpOp == "ge" || cmpOp == "eq" || cmpOp == "ne")
+//@   ensures result1 == nil ==> (cmpValChangeMode == "now" && as(result0, "tsCmpOpNode").cmpValChangeMode == cmpValChangeModeNow) || (cmpValChangeMode == "const" && as(result0, "tsCmpOpNode").cmpValChangeMode == cmpValChangeModeConst)
+//@   ensures result1 == nil ==> as(result0, "tsCmpOpNode").constCmpValue == gunix && as(result0, "tsCmpOpNode").cmpValueShift == gshift && as(result0, "tsCmpOpNode").updateInterval == updateInterval
+//@   ensures result1 == nil ==> npath == 1 && ref(as(result0, "tsCmpOpNode").fieldPath) == gpr && len(as(result0, "tsCmpOpNode").fieldPath) == gpl
+//@   ensures result1 == nil ==> (gfmtok ==> as(result0, "tsCmpOpNode").format == gfmt) && (!gfmtok ==> as(result0, "tsCmpOpNode").format == format)
+//@   ensures result1 == nil ==> nstart == 1
+//@   ensures (cmpOp == "lt" || cmpOp == "le" || cmpOp == "gt" || cmpOp == "ge" || cmpOp == "eq" || cmpOp == "ne") && (cmpValChangeMode == "now" || cmpValChangeMode == "const") ==> result1 == nil
+//@   callee ParseFieldSelector(s) (r)
+//@     requires s == field
+//@     pure
+//@     set gpr := ref(r)
+//@     set gpl := len(r)
+//@     set npath := npath + 1
+//@   callee ParseFormatName(f) (r, e)
+//@     requires f == format
+//@     pure
+//@     set gfmt := r
+//@     set gfmtok := e == nil
+//@   callee UnixNano() (v)
+//@     requires recv == cmpValue
+//@     pure
+//@     set gunix := v
+//@   callee Nanoseconds() (v)
+//@     requires recv == cmpValueShift
+//@     pure
+//@     set gshift := v
+//@   callee startUpdater()
+//@     requires nstart == 0 && recv.cmpValChangeMode == ite(cmpValChangeMode == "now", cmpValChangeModeNow, cmpValChangeModeConst) && recv.updateInterval == updateInterval
+//@     set nstart := nstart + 1
+
+// extractDoIfNode (C14, tree construction): the node built for a configuration map is
+// the one its "op" names - and/or/not a logical node, equal/contains/contains_any/
+// prefix/suffix/regex a field node, byte_len_cmp/array_len_cmp/int_val_cmp a length
+// node, ts_cmp a timestamp node, check_type a type node - built from this very map, by
+// exactly one constructor, whose node and whose verdict are handed on unchanged.  A map
+// without a textual "op", or with any other op, is refused.
+
+//@ func extractDoIfNode
+//@   pure
+//@   ghost gop seq = ""
+//@   ghost gopok bool = false
+//@   ghost nsub int = 0
+//@   ghost gtag int = 0
+//@   ghost gpay int = 0
+//@   ghost gerr bool = false
+//@   ensures !gopok ==> result1 != nil
+//@   ensures !(gop == "and" || gop == "or" || gop == "not" || gop == "equal" || gop == "contains" || gop == "contains_any" || gop == "prefix" || gop == "suffix" || gop == "regex" || gop == "byte_len_cmp" || gop == "array_len_cmp" || gop == "int_val_cmp" || gop == "ts_cmp" || gop == "check_type") ==> result1 != nil
+//@   ensures gopok && (gop == "and" || gop == "or" || gop == "not" || gop == "equal" || gop == "contains" || gop == "contains_any" || gop == "prefix" || gop == "suffix" || gop == "regex" || gop == "byte_len_cmp" || gop == "array_len_cmp" || gop == "int_val_cmp" || gop == "ts_cmp" || gop == "check_type") ==> nsub == 1
+//@   ensures result1 == nil ==> nsub == 1 && !gerr && result0.tag == gtag && result0.pay == gpay
+//@   ensures nsub == 1 && !gerr ==> result1 == nil
+//@   ensures nsub <= 1
+//@   callee get(n, f) (r, e)
+//@     requires n == node && f == "op" && nsub == 0
+//@     pure
+//@     set gop := r
+//@     set gopok := e == nil
+//@   callee extractLogicalOpNode(o, n) (r, e)
+//@     requires gopok && nsub == 0 && o == gop && n == node && (gop == "and" || gop == "or" || gop == "not")
+//@     set nsub := nsub + 1
+//@     set gtag := r.tag
+//@     set gpay := r.pay
+//@     set gerr := e != nil
+//@   callee extractFieldOpNode(o, n) (r, e)
+//@     requires gopok && nsub == 0 && o == gop && n == node && (gop == "equal" || gop == "contains" || gop == "contains_any" || gop == "prefix" || gop == "suffix" || gop == "regex")
+//@     set nsub := nsub + 1
+//@     set gtag := r.tag
+//@     set gpay := r.pay
+//@     set gerr := e != nil
+//@   callee extractLengthCmpOpNode(o, n) (r, e)
+//@     requires gopok && nsub == 0 && o == gop && n == node && (gop == "byte_len_cmp" || gop == "array_len_cmp" || gop == "int_val_cmp")
+//@     set nsub := nsub + 1
+//@     set gtag := r.tag
+//@     set gpay := r.pay
+//@     set gerr := e != nil
+//@   callee extractTsCmpOpNode(o, n) (r, e)
+//@     requires gopok && nsub == 0 && n == node && gop == "ts_cmp"
+//@     set nsub := nsub + 1
+//@     set gtag := r.tag
+//@     set gpay := r.pay
+//@     set gerr := e != nil
+//@   callee extractCheckTypeOpNode(o, n) (r, e)
+//@     requires gopok && nsub == 0 && n == node && gop == "check_type"
+//@     set nsub := nsub + 1
+//@     set gtag := r.tag
+//@     set gpay := r.pay
+//@     set gerr := e != nil
+
+// extractLogicalOpNode (C14, tree construction): the logical node is built by
+// NewLogicalNode from the op name as given and from exactly the configured operands:
+// one built node per element of "operands", in the order of the list (element i of the
+// node's operand list is the node built in step i from element i), none dropped, none
+// twice.  A missing or non-list "operands", an operand that is not a map, an operand
+// that cannot be built and a refusal of NewLogicalNode (no operand; not with more than
+// one) are all errors.  up_opnd(i, x) is a history predicate: "x is the node the
+// successful extractDoIfNode call of step i returned" (defined at that call, nowhere else).
+
+//@ func extractLogicalOpNode
+//@   pure
+//@   ghost gok bool = false
+//@   ghost gn int = 0
+//@   ghost nnew int = 0
+//@   ghost gtag int = 0
+//@   ghost gpay int = 0
+//@   ghost gerr bool = false
+//@   ensures !gok ==> result1 != nil
+//@   ensures result1 == nil ==> gok && nnew == 1 && !gerr && result0.tag == gtag && result0.pay == gpay
+//@   ensures nnew == 1 && !gerr ==> result1 == nil
+//@   ensures nnew <= 1
+//@   loop 1 invariant gok && nnew == 0 && gn == len(rawOperands) && rangeindex < len(rawOperands) && len(operands) == rangeindex + 1 && freshin(operands)
+//@   loop 1 invariant forall i :: 0 <= i && i <= rangeindex ==> up_opnd(i, operands[i])
+//@   callee get(n, f) (r, e)
+//@     requires n == node && f == "operands"
+//@     pure
+//@     set gok := e == nil
+//@     set gn := len(r)
+//@   callee extractDoIfNode(m) (r, e)
+//@     requires m == operandMap && typeis(rawOperands[rangeindex], "map[string]any") && len(operands) == rangeindex
+//@     ensures e == nil ==> up_opnd(rangeindex, r)
+//@   callee NewLogicalNode(o, ops) (r, e)
+//@     requires gok && nnew == 0 && o == opName && len(ops) == gn && (forall i :: 0 <= i && i < gn ==> up_opnd(i, ops[i]))
+//@     set nnew := nnew + 1
+//@     set gtag := r.tag
+//@     set gpay := r.pay
+//@     set gerr := e != nil
+
+// extractOpValues (C14, tree construction): the value list of a field / check_type
+// operation is what "values" holds: null is the single value null, a text is that one
+// text (its bytes, unchanged), a list is what extractOpValuesFromArr makes of exactly
+// that list (one value per element); a missing "values" or any other type is refused.
+
+//@ func extractOpValues
+//@   pure
+//@   ghost gok bool = false
+//@   ghost narr int = 0
+//@   ghost gaerr bool = false
+//@   ghost gar int = 0
+//@   ghost gao int = 0
+//@   ghost gal int = 0
+//@   ensures !gok ==> result1 != nil
+//@   ensures result1 == nil && valuesRaw == nil ==> len(result0) == 1 && isnil(result0[0]) && narr == 0
+//@   ensures result1 == nil && typeis(valuesRaw, "string") ==> len(result0) == 1 && len(result0[0]) == len(values#2) && seqeq(result0[0], values#2) && narr == 0
+//@   ensures result1 == nil && typeis(valuesRaw, "[]any") ==> narr == 1 && !gaerr && ref(result0) == gar && off(result0) == gao && len(result0) == gal
+//@   ensures result1 == nil ==> valuesRaw == nil || typeis(valuesRaw, "string") || typeis(valuesRaw, "[]any")
+//@   ensures gok && (valuesRaw == nil || typeis(valuesRaw, "string") || (typeis(valuesRaw, "[]any") && narr == 1 && !gaerr)) ==> result1 == nil
+//@   callee getAny(n, f) (r, e)
+//@     requires n == node && f == "values"
+//@     pure
+//@     set gok := e == nil
+//@   callee extractOpValuesFromArr(v) (r, e)
+//@     requires gok && narr == 0 && typeis(valuesRaw, "[]any") && v == values#3
+//@     set narr := narr + 1
+//@     set gaerr := e != nil
+//@     set gar := ref(r)
+//@     set gao := off(r)
+//@     set gal := len(r)
+
+// extractCheckTypeOpNode (C14, tree construction): the type node is built by
+// NewCheckTypeOpNode from the text under "field" and the value list extractOpValues
+// made of this very map; its node and verdict are handed on; a missing / non-text
+// "field" or a refused value list is an error.  uf_sid(s) names a string value.
+
+//@ func extractCheckTypeOpNode
+//@   pure
+//@   ghost gfield int = 0
+//@   ghost nfield int = 0
+//@   ghost gerr bool = false
+//@   ghost nvals int = 0
+//@   ghost gvr int = 0
+//@   ghost gvo int = 0
+//@   ghost gvl int = 0
+//@   ghost nnew int = 0
+//@   ghost gtag int = 0
+//@   ghost gpay int = 0
+//@   ghost gnewerr bool = false
+//@   ensures gerr ==> result1 != nil
+//@   ensures result1 == nil ==> nnew == 1 && !gnewerr && result0.tag == gtag && result0.pay == gpay
+//@   ensures nnew == 1 && !gnewerr ==> result1 == nil
+//@   ensures !gerr ==> nnew == 1
+//@   ensures nnew <= 1
+//@   callee get(n, f) (r, e)
+//@     requires n == node && f == "field" && nfield == 0
+//@     pure
+//@     set gfield := uf_sid(r)
+//@     set nfield := nfield + 1
+//@     set gerr := gerr || e != nil
+//@   callee extractOpValues(n) (r, e)
+//@     requires n == node && nvals == 0
+//@     set nvals := nvals + 1
+//@     set gvr := ref(r)
+//@     set gvo := off(r)
+//@     set gvl := len(r)
+//@     set gerr := gerr || e != nil
+//@   callee NewCheckTypeOpNode(f, v) (r, e)
+//@     requires !gerr && nfield == 1 && nvals == 1 && nnew == 0 && uf_sid(f) == gfield && ref(v) == gvr && off(v) == gvo && len(v) == gvl
+//@     set nnew := nnew + 1
+//@     set gtag := r.tag
+//@     set gpay := r.pay
+//@     set gnewerr := e != nil
+
+// extractLengthCmpOpNode (C14, tree construction): the length / integer comparison node
+// is built by NewLenCmpOpNode from the op name as given, the texts under "field" and
+// "cmp_op" (whichever is read first) and the integer anyToInt makes of what "value"
+// holds; a missing or wrongly typed parameter is an error; node and verdict are handed on.
+
+//@ func extractLengthCmpOpNode
+//@   pure
+//@   ghost gfield int = 0
+//@   ghost nfield int = 0
+//@   ghost gcmp int = 0
+//@   ghost ncmp int = 0
+//@   ghost gerr bool = false
+//@   ghost nval int = 0
+//@   ghost gvtag int = 0
+//@   ghost gvpay int = 0
+//@   ghost nint int = 0
+//@   ghost gint int = 0
+//@   ghost nnew int = 0
+//@   ghost gtag int = 0
+//@   ghost gpay int = 0
+//@   ghost gnewerr bool = false
+//@   ensures gerr ==> result1 != nil
+//@   ensures result1 == nil ==> nnew == 1 && !gnewerr && result0.tag == gtag && result0.pay == gpay
+//@   ensures nnew == 1 && !gnewerr ==> result1 == nil
+//@   ensures !gerr ==> nnew == 1
+//@   ensures nnew <= 1
+//@   callee get(n, f) (r, e)
+//@     requires n == node && ((f == "field" && nfield == 0) || (f == "cmp_op" && ncmp == 0))
+//@     pure
+//@     set gfield := ite(f == "field", uf_sid(r), gfield)
+//@     set nfield := nfield + ite(f == "field", 1, 0)
+//@     set gcmp := ite(f == "cmp_op", uf_sid(r), gcmp)
+//@     set ncmp := ncmp + ite(f == "cmp_op", 1, 0)
+//@     set gerr := gerr || e != nil
+//@   callee getAny(n, f) (r, e)
+//@     requires n == node && f == "value" && nval == 0
+//@     pure
+//@     set nval := nval + 1
+//@     set gvtag := r.tag
+//@     set gvpay := r.pay
+//@     set gerr := gerr || e != nil
+//@   callee anyToInt(v) (r, e)
+//@     requires nval == 1 && nint == 0 && v.tag == gvtag && v.pay == gvpay
+//@     pure
+//@     set nint := nint + 1
+//@     set gint := r
+//@     set gerr := gerr || e != nil
+//@   callee NewLenCmpOpNode(o, f, c, v) (r, e)
+//@     requires !gerr && nfield == 1 && ncmp == 1 && nint == 1 && nnew == 0 && o == opName && uf_sid(f) == gfield && uf_sid(c) == gcmp && v == gint
+//@     set nnew := nnew + 1
+//@     set gtag := r.tag
+//@     set gpay := r.pay
+//@     set gnewerr := e != nil
+
+// extractFieldOpNode (C14, tree construction): the field node is built by NewFieldOpNode
+// from the op name as given, the text under "field", the value list extractOpValues
+// made of this very map, and case sensitivity: the boolean under "case_sensitive" when
+// there is one, true (the documented default) when the key is absent, an error when it
+// holds something that is not a boolean.  Node and verdict are handed on.
+
+//@ func extractFieldOpNode
+//@   pure
+//@   ghost gfield int = 0
+//@   ghost nfield int = 0
+//@   ghost gerr bool = false
+//@   ghost ncs int = 0
+//@   ghost gcsok bool = false
+//@   ghost gcs bool = false
+//@   ghost gcsetag int = 0
+//@   ghost gcsepay int = 0
+//@   ghost nis int = 0
+//@   ghost gmismatch bool = false
+//@   ghost nvals int = 0
+//@   ghost gvr int = 0
+//@   ghost gvo int = 0
+//@   ghost gvl int = 0
+//@   ghost nnew int = 0
+//@   ghost gtag int = 0
+//@   ghost gpay int = 0
+//@   ghost gnewerr bool = false
+//@   ensures gerr ==> result1 != nil
+//@   ensures ncs == 1 && !gcsok && nis == 1 && gmismatch ==> result1 != nil
+//@   ensures result1 == nil ==> nnew == 1 && !gnewerr && result0.tag == gtag && result0.pay == gpay
+//@   ensures nnew == 1 && !gnewerr ==> result1 == nil
+//@   ensures !gerr && !(nis == 1 && gmismatch) ==> nnew == 1
+//@   ensures nnew <= 1
+//@   callee get[string](n, f) (r, e)
+//@     requires n == node && f == "field" && nfield == 0
+//@     pure
+//@     set gfield := uf_sid(r)
+//@     set nfield := nfield + 1
+//@     set gerr := gerr || e != nil
+//@   callee get[bool](n, f) (r, e)
+//@     requires n == node && f == "case_sensitive" && ncs == 0
+//@     pure
+//@     set ncs := ncs + 1
+//@     set gcsok := e == nil
+//@     set gcs := r
+//@     set gcsetag := e.tag
+//@     set gcsepay := e.pay
+//@   callee Is(e, t) (r)
+//@     requires ncs == 1 && !gcsok && nis == 0 && e.tag == gcsetag && e.pay == gcsepay && t == errTypeMismatch
+//@     pure
+//@     set nis := nis + 1
+//@     set gmismatch := r
+//@   callee extractOpValues(n) (r, e)
+//@     requires n == node && nvals == 0
+//@     set nvals := nvals + 1
+//@     set gvr := ref(r)
+//@     set gvo := off(r)
+//@     set gvl := len(r)
+//@     set gerr := gerr || e != nil
+//@   callee NewFieldOpNode(o, f, c, v) (r, e)
+//@     requires !gerr && nfield == 1 && ncs == 1 && nvals == 1 && nnew == 0 && o == opName && uf_sid(f) == gfield
+//@     requires c == (!gcsok || gcs) && (gcsok || (nis == 1 && !gmismatch))
+//@     requires ref(v) == gvr && off(v) == gvo && len(v) == gvl
+//@     set nnew := nnew + 1
+//@     set gtag := r.tag
+//@     set gpay := r.pay
+//@     set gnewerr := e != nil
+
+// extractTsCmpOpNode (C14, tree construction): the timestamp node is built by
+// NewTsCmpOpNode from the texts under "field" and "cmp_op" and from "value": "now"
+// means the moving mode, "file_d_start" the constant mode with the current time,
+// anything else the constant mode with that text parsed as RFC3339Nano.  The optional
+// keys: "format" - the text given, else "rfc3339nano"; "value_shift" - the duration
+// given, else 0; "update_interval" - the duration given, else 10 s.  An optional key is
+// defaulted only when it is absent: a value of the wrong type (errTypeMismatch) or a
+// duration / time that does not parse is an error, as is a missing required key.  Keys
+// may be read in any order; node and verdict of NewTsCmpOpNode are handed on.
+
+//@ func extractTsCmpOpNode
+//@   pure
+//@   ghost greq bool = false
+//@   ghost gfield int = 0
+//@   ghost nfield int = 0
+//@   ghost gcmp int = 0
+//@   ghost ncmp int = 0
+//@   ghost gval int = 0
+//@   ghost nval int = 0
+//@   ghost gisnow bool = false
+//@   ghost gisstart bool = false
+//@   ghost nfmt int = 0
+//@   ghost gfmt int = 0
+//@   ghost gfmtok bool = false
+//@   ghost gfmtetag int = 0
+//@   ghost gfmtepay int = 0
+//@   ghost nshget int = 0
+//@   ghost gshs int = 0
+//@   ghost gshok bool = false
+//@   ghost gshetag int = 0
+//@   ghost gshepay int = 0
+//@   ghost nuiget int = 0
+//@   ghost guis int = 0
+//@   ghost guiok bool = false
+//@   ghost guietag int = 0
+//@   ghost guiepay int = 0
+//@   ghost nis int = 0
+//@   ghost gmm bool = false
+//@   ghost nnow int = 0
+//@   ghost gnw int = 0
+//@   ghost gne int = 0
+//@   ghost gnl int = 0
+//@   ghost nparse int = 0
+//@   ghost gperr bool = false
+//@   ghost gpw int = 0
+//@   ghost gpe int = 0
+//@   ghost gpl int = 0
+//@   ghost nsh int = 0
+//@   ghost gsh int = 0
+//@   ghost nui int = 0
+//@   ghost gui int = 0
+//@   ghost gpderr bool = false
+//@   ghost nnew int = 0
+//@   ghost gtag int = 0
+//@   ghost gpay int = 0
+//@   ghost gnewerr bool = false
+//@   ensures greq || gperr || gpderr || gmm ==> result1 != nil
+//@   ensures result1 == nil ==> nnew == 1 && !gnewerr && result0.tag == gtag && result0.pay == gpay
+//@   ensures nnew == 1 ==> (result1 == nil) == !gnewerr
+//@   ensures !(greq || gperr || gpderr || gmm) ==> nnew == 1
+//@   ensures nnew <= 1
+//@   callee get(n, f) (r, e)
+//@     requires n == node && ((f == "field" && nfield == 0) || (f == "cmp_op" && ncmp == 0) || (f == "value" && nval == 0) || (f == "format" && nfmt == 0) || (f == "value_shift" && nshget == 0) || (f == "update_interval" && nuiget == 0))
+//@     pure
+//@     set greq := greq || ((f == "field" || f == "cmp_op" || f == "value") && e != nil)
+//@     set gfield := ite(f == "field", uf_sid(r), gfield)
+//@     set nfield := nfield + ite(f == "field", 1, 0)
+//@     set gcmp := ite(f == "cmp_op", uf_sid(r), gcmp)
+//@     set ncmp := ncmp + ite(f == "cmp_op", 1, 0)
+//@     set gval := ite(f == "value", uf_sid(r), gval)
+//@     set nval := nval + ite(f == "value", 1, 0)
+//@     set gisnow := ite(f == "value", r == "now", gisnow)
+//@     set gisstart := ite(f == "value", r == "file_d_start", gisstart)
+//@     set gfmt := ite(f == "format", uf_sid(r), gfmt)
+//@     set nfmt := nfmt + ite(f == "format", 1, 0)
+//@     set gfmtok := ite(f == "format", e == nil, gfmtok)
+//@     set gfmtetag := ite(f == "format", e.tag, gfmtetag)
+//@     set gfmtepay := ite(f == "format", e.pay, gfmtepay)
+//@     set gshs := ite(f == "value_shift", uf_sid(r), gshs)
+//@     set nshget := nshget + ite(f == "value_shift", 1, 0)
+//@     set gshok := ite(f == "value_shift", e == nil, gshok)
+//@     set gshetag := ite(f == "value_shift", e.tag, gshetag)
+//@     set gshepay := ite(f == "value_shift", e.pay, gshepay)
+//@     set guis := ite(f == "update_interval", uf_sid(r), guis)
+//@     set nuiget := nuiget + ite(f == "update_interval", 1, 0)
+//@     set guiok := ite(f == "update_interval", e == nil, guiok)
+//@     set guietag := ite(f == "update_interval", e.tag, guietag)
+//@     set guiepay := ite(f == "update_interval", e.pay, guiepay)
+//@   callee Is(e, t) (r)
+//@     requires t == errTypeMismatch && ((nfmt == 1 && !gfmtok && e.tag == gfmtetag && e.pay == gfmtepay) || (nshget == 1 && !gshok && e.tag == gshetag && e.pay == gshepay) || (nuiget == 1 && !guiok && e.tag == guietag && e.pay == guiepay))
+//@     pure
+//@     set nis := nis + 1
+//@     set gmm := gmm || r
+//@   callee Now() (t)
+//@     requires nval == 1 && gisstart && nnow == 0
+//@     pure
+//@     set nnow := nnow + 1
+//@     set gnw := t.wall
+//@     set gne := t.ext
+//@     set gnl := ref(t.loc)
+//@   callee Parse(l, v) (t, e)
+//@     requires nval == 1 && !gisnow && !gisstart && nparse == 0 && l == "2006-01-02T15:04:05.999999999Z07:00" && uf_sid(v) == gval
+//@     pure
+//@     set nparse := nparse + 1
+//@     set gperr := e != nil
+//@     set gpw := t.wall
+//@     set gpe := t.ext
+//@     set gpl := ref(t.loc)
+//@   callee ParseDuration(s) (d, e)
+//@     requires (nshget == 1 && gshok && nsh == 0 && uf_sid(s) == gshs) || (nuiget == 1 && guiok && nui == 0 && uf_sid(s) == guis)
+//@     pure
+//@     set gsh := ite(nshget == 1 && gshok && nsh == 0 && uf_sid(s) == gshs, d, gsh)
+//@     set nsh := nsh + ite(nshget == 1 && gshok && nsh == 0 && uf_sid(s) == gshs, 1, 0)
+//@     set gui := ite(nuiget == 1 && guiok && nui == 0 && uf_sid(s) == guis && !(nshget == 1 && gshok && nsh == 0 && uf_sid(s) == gshs), d, gui)
+//@     set nui := nui + ite(nuiget == 1 && guiok && nui == 0 && uf_sid(s) == guis && !(nshget == 1 && gshok && nsh == 0 && uf_sid(s) == gshs), 1, 0)
+//@     set gpderr := gpderr || e != nil
+//@   callee NewTsCmpOpNode(f, fm, c, m, v, sh, ui) (r, e)
+//@     requires !greq && !gperr && !gpderr && !gmm && nnew == 0 && nfield == 1 && ncmp == 1 && nval == 1 && nfmt == 1 && nshget == 1 && nuiget == 1
+//@     requires uf_sid(f) == gfield && uf_sid(c) == gcmp
+//@     requires (gisnow ==> m == "now") && (!gisnow ==> m == "const")
+//@     requires gisstart ==> nnow == 1 && v.wall == gnw && v.ext == gne && ref(v.loc) == gnl
+//@     requires !gisnow && !gisstart ==> nparse == 1 && v.wall == gpw && v.ext == gpe && ref(v.loc) == gpl
+//@     requires (gfmtok ==> uf_sid(fm) == gfmt) && (!gfmtok ==> fm == "rfc3339nano")
+//@     requires (gshok ==> nsh == 1 && sh == gsh) && (!gshok ==> sh == 0)
+//@     requires (guiok ==> nui == 1 && ui == gui) && (!guiok ==> ui == 10000000000)
+//@     requires nis == ite(gfmtok, 0, 1) + ite(gshok, 0, 1) + ite(guiok, 0, 1)
+//@     set nnew := nnew + 1
+//@     set gtag := r.tag
+//@     set gpay := r.pay
+//@     set gnewerr := e != nil
+
+// The configuration readers (C14, tree construction).  getAny: one lookup, of exactly
+// the asked key; an error exactly when the key is absent; otherwise what the map holds.
+// get[T]: asks getAny once, for this map and key, and fails when getAny fails (that the
+// value is accepted exactly when it is a T is not expressible: the body is generic, and
+// the verifier gives the instances get[string] ... no contract of their own - callers
+// state what they need of a call in their own call-site clauses).
+// anyToInt: an int is itself; a float64 / json.Number is converted (the conversion
+// itself is outside the verifier: floats); anything else is refused.  None writes.
+
+//@ func getAny
+//@   pure
+//@   ghost gk seq = ""
+//@   ghost gok bool = false
+//@   ghost gvtag int = 0
+//@   ghost gvpay int = 0
+//@   ghost nlook int = 0
+//@   ensures nlook == 1 && gk == field
+//@   ensures (result1 == nil) == gok
+//@   ensures result1 == nil ==> result0.tag == gvtag && result0.pay == gvpay
+//@   callee maplookup:node(k) (v, ok)
+//@     set gk := k
+//@     set gok := ok
+//@     set gvtag := v.tag
+//@     set gvpay := v.pay
+//@     set nlook := nlook + 1
+
+//@ func get
+//@   pure
+//@   ghost nany int = 0
+//@   ghost ganyerr bool = false
+//@   ensures nany == 1
+//@   ensures ganyerr ==> result1 != nil
+//@   callee getAny(n, f) (r, e)
+//@     requires n == node && f == field && nany == 0
+//@     set nany := nany + 1
+//@     set ganyerr := e != nil
+
+//@ func anyToInt
+//@   pure
+//@   ensures typeis(v, "int") ==> result1 == nil && result0 == v.pay
+//@   ensures !(typeis(v, "int") || typeis(v, "float64") || typeis(v, "encoding/json.Number")) ==> result1 != nil
+//@   callee Int64() (r, e)
+//@     pure
+
+// NewFromMap / Checker.Check (C14): the checker's root is the node extractDoIfNode built
+// from the whole do_if map (its refusal is the checker's refusal), and the decision for
+// an event is that root's decision - nothing cached, nothing added.
+
+//@ func NewFromMap
+//@   pure
+//@   ghost nx int = 0
+//@   ghost gtag int = 0
+//@   ghost gpay int = 0
+//@   ghost gerr bool = false
+//@   ensures nx == 1 && (result1 == nil) == !gerr
+//@   ensures result1 == nil ==> result0 != nil && result0.root.tag == gtag && result0.root.pay == gpay
+//@   callee extractDoIfNode(x) (r, e)
+//@     requires x == m && nx == 0
+//@     set nx := nx + 1
+//@     set gtag := r.tag
+//@     set gpay := r.pay
+//@     set gerr := e != nil
+
+//@ func (*Checker).Check
+//@   pure
+//@   ensures result == up_chk(c.root, data)
+//@   callee Check(d) (r)
+//@     requires recv == c.root && d == data
+//@     pure
+//@     ensures r == up_chk(recv, d)
